@@ -9,12 +9,15 @@ devs = sys.argv[6].split(",") if len(sys.argv) > 6 and sys.argv[6] else []
 PROFILES = {
  "pubsub": '<<"join","sub","sub","unsub","pub","pub","pub","leave">>',
  "rpc": '<<"join","reg","reg","unreg","call","call","call","cancel","yield","yield","inverr","leave","adv">>',
+ "meta": '<<"join","sub","sub","unsub","reg","reg","unreg","msess","msess","mreg","mreg","msub","msub","leave">>',
+ "kill": '<<"join","join","sub","sub","reg","call","tst","tst","kill","kill","msess","leave","pub">>',
+ "hist": '<<"join","sub","unsub","pub","pub","pub","pub","hist","hist","hist","adv","leave">>',
  "mixed": '<<"join","sub","unsub","pub","reg","unreg","call","cancel","yield","inverr","leave","adv">>',
 }
 w = Work("try")
 os.environ["VERIF_KEEP"] = "1"
 b = build_harness(w)
-scns = gen_scenarios(w, "Gen", {"Deviations": tla_set(devs), "Depth": depth}, num, depth, seed, "gen", "g",
+scns = gen_scenarios(w, "Gen", {"Deviations": tla_set(devs), "Depth": depth, "HistMode": "TRUE" if "hist" in profile else "FALSE"}, num, depth, seed, "gen", "g",
    defs={"KindBag": PROFILES.get(profile) or ("<<" + ",".join('"%s"' % k for k in profile.split("+")) + ">>")})
 for s in scns: s["epilogue"] = True
 tf, crashes = run_exec(w, b, scns, "ex")
